@@ -1,6 +1,8 @@
 //! Test harness executing the real `minimq` crate under a scripted transport and a virtual clock,
 //! following /verif/PROTOCOL.md.
 
+#[path = "gen/mod.rs"]
+pub mod generate;
 pub mod interp;
 pub mod io;
 pub mod parse;
